@@ -31,7 +31,7 @@ META = {
     "ready": True,
     "category": "proof",
     "technique": "Lean 4 refinement proof: a reference-counted object store with in-place update under a uniqueness test refines the persistent (pure value) semantics for every operation sequence, every sharing pattern and every choice of last uses; tied to /repo by a translator (list of in-place primitives and the test they use) and by differential execution of generated alias-heavy programs (real engine vs the specification computed by the compiled Lean driver)",
-    "level_text": "Theorems (lean/SteelVerif/C03/Props.lean): inplace_refines_persistent - for every list of operations new/lit/alias/move(last use)/drop/get(derived value)/update over a store id -> (kind, slots, rc) with nested objects, for every sound uniqueness test (true only when rc = 1; the code's test is has_unique_ref, proved sound in C05) and every choice of which updates try the in-place path, after every step rc o = number of references to o (holders, slots, pending releases) and every holder unfolds in M to exactly the pure tree S gives it (view_eq: as a computed equality; bound_eq); update_is_fresh_copy (the result is the update applied to the old pure value, every other holder keeps its value, on both paths); last_use_move_safe (moving instead of copying at a last use is unobservable); inplace_unsound_if_count_wrong (with a test that ignores the count, or is off by one, an alias observes the update: the hypothesis is needed).  The model is hand-written; it is tied to /repo on every run by translate/c03_inplace.py (which primitives can write in place, that each of them tests Gc::get_mut/make_mut = BiasedRc::has_unique_ref, none decides on strong_count, no weak references) and by running generated programs on the real engine with STEEL_JIT on and off.",
+    "level_text": "Theorems (lean/SteelVerif/C03/Props.lean): inplace_refines_persistent - for every list of operations new/lit/alias/move(last use)/drop/get(derived value)/update over a store id -> (kind, slots, rc) with nested objects, for every sound uniqueness test (true only when rc = 1; the code's test is has_unique_ref, proved sound in C05) and every choice of which updates try the in-place path, after every step rc o = number of references to o (holders, slots, pending releases) and every holder unfolds in M to exactly the pure tree S gives it (view_eq: as a computed equality; bound_eq); update_is_fresh_copy (the result is the update applied to the old pure value, every other holder keeps its value, on both paths); last_use_move_safe (moving instead of copying at a last use is unobservable); inplace_unsound_if_count_wrong (with a test that ignores the count, or is off by one, an alias observes the update: the hypothesis is needed). The clauses of the property that no theorem carries (that a Steel program is such an operation list, soundness of the real uniqueness test = C05, correctness of the compiler's last-use marks, threads, sharing inside a collection) are listed at the end of Props.lean.  The model is hand-written; it is tied to /repo on every run by translate/c03_inplace.py (which primitives can write in place, that each of them tests Gc::get_mut/make_mut = BiasedRc::has_unique_ref, none decides on strong_count, no weak references) and by running generated programs on the real engine with STEEL_JIT on and off.",
     "level_note": "Trusted: Lean kernel (propext, Classical.choice, Quot.sound only), the translator's regexes and its reviewed classification table, harness/driver/generator/comparison, C05's theorem that has_unique_ref is a sound test. Not modelled (differential run only): the compiler's last-use analysis and the VM's move op codes (any choice of moves is covered by the theorem, that the compiler's choice is a last use is C01's), the JIT, the structural sharing inside im-lists / steel-imbl (their nodes use the same Gc::make_mut; modelled as one object per collection), open continuation marks. The persistent semantics of the Steel primitives themselves (what append, hash-union, ... compute) is the driver's table, compared with the real engine on every run.",
 }
 
